@@ -19,7 +19,7 @@ DEFAULT = ("other", "run-time contracts on the real code over an enumerated oper
            "Bounded tier only so far: contracts taken from the property statement are evaluated on the real code under real torch over a systematic family (zoo classes x batch shapes x sizes x dtypes x operand kinds) against independent dense oracles. Labelled bounded; nothing is counted as proved.",
            "dense oracles of contracts/zoo.py; float tolerances; enumerated family only")
 
-CLAIMED = ["C01", "C16", "C17"]  # only what currently passes on the unchanged tree
+CLAIMED = ["C01", "C12", "C16", "C17", "C18", "C20"]  # only what currently passes on the unchanged tree
 checks, na = [], []
 for p in props:
     pid = p["id"]
